@@ -31,7 +31,7 @@ ROOT = os.path.dirname(os.path.dirname(os.path.dirname(os.path.abspath(__file__)
 CASE_TIMEOUT_S = int(os.environ.get("VERIF_CASE_TIMEOUT", "120"))
 
 
-class CaseTimeout(Exception):
+class CaseTimeout(BaseException):
     pass
 
 
